@@ -113,3 +113,12 @@ package htmldoc
 //@     decreases len(t.Rows) - i
 //@   loop 3:
 //@     invariant startRow <= i && i < len(t.Rows) && cells == len(t.Rows[0]) + htmlcellcount(t.Rows, i) - htmlcellcount(t.Rows, startRow) + $i
+
+// ---- C19: every extraction builds its own element list: the cached mode-None list and the per-mode caches never
+// share a backing array with a list that is still being appended to ----
+//@ func (*Reader) extractBodyWithMode
+//@   property C19
+//@   flags frameonly, noalias
+//@ func (*Reader) getElements
+//@   property C19
+//@   flags frameonly, noalias
